@@ -129,7 +129,11 @@ def judge(case, sortflags, cd):
         # files packed with default flags must share storage; a copy packed with dont_deduplicate / dont_fragment may add one
         # more stored copy (which later duplicates may legitimately be matched against)
         locs = set((n.blocks_start if n.blocks and any(w & 0xFFFFFF for w in n.blocks) else None, tuple(n.blocks), n.frag) for n in nodes)
-        if len(locs) > 1 + len(flagged):
+        # a flagged file whose TAIL END equals this content stores that tail on its own as well, and the fragment table entry it
+        # inserts takes the place of the older one (later default-flag duplicates are matched against it): one more legitimate location
+        tails = sum(1 for e in case.ents if e.path in sortflags and e.content and e.content != c and len(c) < 4096 and len(e.content) > len(c) and
+                    (len(e.content) - len(c)) % 4096 == 0 and e.content[-len(c):] == c)
+        if len(locs) > 1 + len(flagged) + tails:
             out.append(("duplicate-not-shared", "%d identical files of %d bytes (default flags) are stored %d times" % (len(nodes), len(c), len(locs))))
             break
     return out
